@@ -207,7 +207,7 @@ def function_interpolate(function, x, eps = 1e-9, start_tens = None, nswp = 20, 
                 
             if eval_mv:
                 ev = tn.zeros((eval_index.shape[0],0),dtype = dtype)
-                for j in range(d):
+                for j in range(len(x)):
                     core = x[j].cores[0][0,eval_index[:,0],:]
                     for i in range(1,d):
                         core = tn.einsum('ij,jil->il',core,x[j].cores[i][:,eval_index[:,i],:])
@@ -301,7 +301,7 @@ def function_interpolate(function, x, eps = 1e-9, start_tens = None, nswp = 20, 
                 
             if eval_mv:
                 ev = tn.zeros((eval_index.shape[0],0),dtype = dtype)
-                for j in range(d):
+                for j in range(len(x)):
                     core = x[j].cores[0][0,eval_index[:,0],:]
                     for i in range(1,d):
                         core = tn.einsum('ij,jil->il',core,x[j].cores[i][:,eval_index[:,i],:])
